@@ -435,6 +435,9 @@ func discharge(ob *Obligation, dir string, timeout int, agree bool) {
 		ob.Solver = "syntactic"
 		return
 	}
+	if ob.Solver == "static" {
+		return // decided without a solver (frame, cost, missing anchors)
+	}
 	file := filepath.Join(dir, sanitize(ob.Name)+".smt2")
 	if len(file) > 200 {
 		file = filepath.Join(dir, fmt.Sprintf("ob_%x.smt2", hashStr(ob.Name)))
